@@ -3,7 +3,7 @@
 From HV Require Import Base.Prelude Base.Outcome Base.Bytes Model.CodecMsg Proofs.CodecMsg
   Model.CodecType Proofs.CodecType Model.CodecAttr Proofs.CodecAttr
   Model.CodecSuper Proofs.CodecSuper Model.CodecOhdr Proofs.CodecOhdr
-  Model.CodecLink Proofs.CodecLink.
+  Model.CodecLink Proofs.CodecLink Model.CodecCompound Proofs.CodecCompound.
 
 Theorem C11_dataspace_roundtrip : forall x, wf_dataspace x = true ->
   dec_dataspace (enc_dataspace x) = Ok (proj_dataspace x).
@@ -165,3 +165,20 @@ Print Assumptions C11_symtab_roundtrip.
 Theorem C11_symtab_len : forall x, blen (enc_symtab 8 x) = 16.
 Proof. exact symtab_blen. Qed.
 Print Assumptions C11_symtab_len.
+
+(* array and enum datatype messages: the library's only decoder is ParseDatatypeMessage, which returns the
+   properties raw; the round trip is "header fields + the exact property bytes the encoder laid out" *)
+Theorem C11_array_roundtrip : forall x, wf_array x = true -> dec_datatype (enc_array x) = Ok (proj_array x).
+Proof. exact array_roundtrip. Qed.
+Print Assumptions C11_array_roundtrip.
+
+Theorem C11_enum_roundtrip : forall x, wf_enum x = true -> dec_datatype (enc_enum x) = Ok (proj_enum x).
+Proof. exact enum_roundtrip. Qed.
+Print Assumptions C11_enum_roundtrip.
+
+(* compound member lists: a member of a class whose extent the decoder cannot determine (string, reference,
+   opaque, array, enum, variable-length) that is not the last member makes the list unparsable *)
+Theorem C11_compound_member_extent_refuted :
+  encok_compound compound_witness = true /\ dec_compound (enc_compound compound_witness) = Err.
+Proof. exact compound_member_extent_refuted. Qed.
+Print Assumptions C11_compound_member_extent_refuted.
